@@ -1242,19 +1242,22 @@ impl MdkStorageProvider for MdkSqliteStorage {
 
     fn prune_expired_snapshots(&self, min_timestamp: u64) -> Result<usize, MdkStorageError> {
         let conn = self.connection.lock().unwrap();
+        // SQLite integers are signed 64-bit: a bound above i64::MAX is later than every snapshot
+        // (a plain `as i64` cast would wrap to a negative bound and prune nothing).
+        let min_timestamp = i64::try_from(min_timestamp).unwrap_or(i64::MAX);
         // The trait returns the number of SNAPSHOTS deleted; a snapshot spans many rows
         // (one per captured table row), so count the distinct (name, group) pairs.
         let snapshots: i64 = conn
             .query_row(
                 "SELECT COUNT(*) FROM (SELECT DISTINCT snapshot_name, group_id
                  FROM group_state_snapshots WHERE created_at < ?)",
-                rusqlite::params![min_timestamp as i64],
+                rusqlite::params![min_timestamp],
                 |row| row.get(0),
             )
             .map_err(|e| MdkStorageError::Database(e.to_string()))?;
         conn.execute(
             "DELETE FROM group_state_snapshots WHERE created_at < ?",
-            rusqlite::params![min_timestamp as i64],
+            rusqlite::params![min_timestamp],
         )
         .map_err(|e| MdkStorageError::Database(e.to_string()))?;
         Ok(snapshots as usize)
